@@ -250,6 +250,13 @@ def run_case(case):
                     at = tissue.random_mobius(rng, at)
                 elif m == 2:
                     at = tissue.bulge(rng, at, 0.3)
+                elif len(at.cells) > 2 and np.random.default_rng([len(at.J), len(at.cells)]).random() < 0.4:
+                    # a lens-shaped cell with exactly two junctions sitting on an interface (both ends of that interface
+                    # then belong to the same three cells); decided without touching the case's random stream
+                    lens = tissue.with_lens(np.random.default_rng([len(at.J), 8]), at)
+                    if lens is not None:
+                        at = lens
+                        mon.count("tissue:with-lens")
                 r = realise.realise(at, k=(0, 15) if rng.random() < 0.5 else int(rng.integers(0, 16)), rng=rng,
                                     relabel=bool(rng.integers(2)), shifts=True, flips="random", edge_dirs=True,
                                     cell_order=bool(rng.integers(2)), spacing="random" if rng.random() < 0.5 else "uniform")
@@ -263,7 +270,7 @@ def run_case(case):
             from fv.gen import scen
             rng = np.random.default_rng(case["seed"])
             for _ in range(case["count"]):
-                at = scen.base_tissue(rng, ["lat-square", "lat-brick", "lat-hex", "lat-square", "lat-tri", "lat-fan"][int(rng.integers(6))])
+                at = scen.base_tissue(rng, ["lat-square", "lat-brick", "lat-hex", "lat-square", "lat-tri", "lat-fan", "lat-diamond", "lat-rosette"][int(rng.integers(8))])
                 if rng.random() < 0.6:
                     at = at.sub(tissue.random_connected_subset(rng, at, int(rng.integers(1, len(at.cells) + 1))))
                 if rng.random() < 0.3 and len(at.cells) > 6:
